@@ -113,7 +113,15 @@ def differential(c, focus, n_hist, backends, cfgs, weights=None, lengths=(4, 22)
   """Runs the tie and the property stage.  Property keys are prefixed by what failed."""
   hists = []
   for i in range(n_hist):
-    g = svcgen.Gen(c.rng, owners=('o',) if i % 4 else ('o', 'p'), sids=('s',) if i % 3 else ('s', 't'),
+    # every third history: two owners whose studies share the display name (cross-owner isolation),
+    # every fourth of the rest: two studies of one owner
+    if i % 3 == 0:
+      owners, sids = ('o', 'p'), ('s',)
+    elif i % 4 == 1:
+      owners, sids = ('o',), ('s', 's1')      # one name a prefix of the other
+    else:
+      owners, sids = ('o',), ('s',)
+    g = svcgen.Gen(c.rng, owners=owners, sids=sids,
                    clients=clients, weights=weights, fail_rate=fail_rate)
     hists.append(g.history(c.rng.randrange(*lengths)))
   recycle_of = [bool(i % 2) for i in range(n_hist)]
